@@ -87,7 +87,18 @@ def _print_Piecewise(
         else:
             return printer._print(cond)
 
-    expr = sympy.simplify(expr)
+    try:
+        simplified = sympy.simplify(expr)
+    except Exception:
+        # sympy may fail to simplify e.g conditions with unevaluated numbers
+        simplified = expr
+    if (
+        isinstance(simplified, sympy.Piecewise)
+        and len(simplified.args) > 0
+        and simplified.args[-1].cond == sympy.true
+    ):
+        # Only use the simplified version if it is still a proper Piecewise
+        expr = simplified
 
     exprs = [printer._print(arg.expr) for arg in expr.args]
     conds = [print_cond(arg.cond) for arg in expr.args]
